@@ -29,6 +29,11 @@ CHECKS = {
     text="Generated read matrices x priors x pedigrees (single, trio, quartet) are run through the real scaled/checkpointed forward-backward table and through a brute-force HMM that sums over every bipartition, transmission value and allele assignment; entries must agree to 1e-9. Written VCFs are re-read with htslib and GT/GL/GQ relations recomputed. Bounded to <= 6 reads, <= 10 columns.",
     note="Trusted: the HMM definition in vlib/oracles.py (emission constants, prior normalisation, Bernoulli transition) shared with the documented model; near-ties within 1e-5 are not judged.",
     ref="DESIGN.md section 4, C08"),
+ "C13": dict(
+    technique="property-based testing (Hypothesis) over a structured VCF model; htslib-parsed input/output diff, idempotence and unphase-after-phase round trips",
+    text="Generated VCFs of full variety (ploidy 1-6 per call, missing / partial genotypes, GT-less records, PS/HP/PQ with Integer or String PS, multi-ALT, duplicates) are unphased in-process; input and output are parsed with htslib and compared field by field; idempotence and unphase(phase(x)) = unphase(x) are checked as metamorphic relations.",
+    note="Trusted: htslib (pysam) parsing on both sides; well-formed = complete header and sorted positions; floats compared at 5 significant digits.",
+    ref="DESIGN.md section 4, C13"),
 }
 
 NOT_YET = {}
